@@ -261,7 +261,7 @@ pub fn check(ctx: &Ctx) -> i32 {
             }
         }
     }
-    let n = ctx.tier.pick(10000, 150000);
+    let n = ctx.tier.pick(10000, 600000);
     let run = |b: &[u8]| {
         let (text, kind) = mutated_input(ctx, b);
         run_text(&text, kind)
